@@ -165,8 +165,9 @@ CHECKS['C13'] = dict(
          '(found K11), arch siblings scrub the same locals (found K9), register-scrub macros cover all returns after kernel calls. Object level: all '
          '247 exported asm functions return with every vector register zero on every path except 33 individually reasoned exceptions (found K5); 281 '
          'further C-callable kernels that are vector-clean on the reference tree stay clean; per manager routine the field-relative byte ranges zeroed '
-         'on the reference tree (keys, IVs, digests, lane slots) are still zeroed; whole-manager clears and road blocks. NOT decided: absence of secrets '
-         'in GPRs, in asm stack frames and in manager storage in general (needs secret-taint with declassification of tags/ciphertext).',
+         'on the reference tree (keys, IVs, digests, lane slots) are still zeroed; every assembled routine zeroes at least as many bytes of its own '
+         'stack frame as on the reference tree; whole-manager clears and road blocks. NOT decided: absence of secrets in GPRs, in frame bytes the '
+         'reference tree does not clear, and in manager storage in general (needs secret-taint with declassification of tags/ciphertext).',
     design='§3 C13', note=TB_ASM + '; baselines imbv/data/vec_clean_baseline.json and scrub_baseline.json hold semantic facts of the reference tree (function names, field-relative ranges), no source text')
 CHECKS['C19'] = dict(
     technique='static analysis: AST table-ownership rule; field-sensitive interprocedural secret-taint over the C code of the five SAFE_LOOKUP units; object-level taint of the 13 assembly lookup primitives',
